@@ -45,6 +45,15 @@ def register(R, tier="quick"):
             out["failures"] = fs
             return out
         return fn
+    def make06(tier_, seed):
+        out = make("C01")(tier_, seed)
+        for f in out["failures"]:
+            f["case"] = "C06-" + f["case"]
+        return out
+    R.bounded_check("matchers-bounded@C06", ["C06"], make06,
+                    bound="the C01 cases of matchers-bounded (result set of every query kind over corpora split into 1-3 segments with "
+                          "posting blocks of 1-16 entries)",
+                    note="C06: the result set of every query is independent of segment layout and block structure")
     for prop in ("C01", "C05", "C09", "C11", "C12"):
         R.bounded_check("matchers-bounded@" + prop, [prop], make(prop),
                         bound="16 query kinds x random corpora (<= 9 docs, 3 terms, tf in {1,2,3,5}, posting block size in "
